@@ -118,6 +118,18 @@ class Helper:
         self.has_nested = any(isinstance(n, (*FuncNode, ast.ClassDef, ast.Lambda)) for n in own)
         self.body = _strip_doc(node.body)  # type: ignore[attr-defined]
 
+    def gen_ok(self) -> bool:
+        """A generator whose every `yield` is a statement and that never returns early."""
+        if not self.is_gen:
+            return False
+        stmts = {id(n.value) for n in ast.walk(self.node) if isinstance(n, ast.Expr)}
+        for n in _own_nodes(self.node):
+            if isinstance(n, ast.YieldFrom) or isinstance(n, ast.Return):
+                return False
+            if isinstance(n, ast.Yield) and (id(n) not in stmts or n.value is None):
+                return False
+        return True
+
     def returns_ok(self) -> bool:
         """`return` only in if/else trees of the top-level block."""
         def ok(stmts: List[ast.stmt]) -> bool:
@@ -227,10 +239,10 @@ class Inliner:
             if key in self.known or (name.startswith("__") and name.endswith("__")):
                 continue
             h = Helper(key, cls, node, container)
-            if counts.get(name, 0) != 1 or not h.plain or not h.simple_sig or h.is_gen or h.recursive or h.has_nested:
-                self.log.append(f"{key}: new, not inlinable (ambiguous name, decorator, signature, generator or recursion)")
+            if counts.get(name, 0) != 1 or not h.plain or not h.simple_sig or h.recursive or h.has_nested or (h.is_gen and not h.gen_ok()):
+                self.log.append(f"{key}: new, not inlinable (ambiguous name, decorator, signature, generator shape or recursion)")
                 continue
-            if not h.returns_ok():
+            if not h.is_gen and not h.returns_ok():
                 self.log.append(f"{key}: new, not inlinable (return inside a loop / try / with)")
                 continue
             out.append(h)
@@ -329,7 +341,98 @@ class Inliner:
                 pre.append(_loc(ast.Assign(targets=[ast.Name(id=new, ctx=ast.Store())], value=copy.deepcopy(arg)), arg))
         return names, subst, pre
 
+    def _inline_generator(self, fn: ast.AST, h: Helper) -> Optional[bool]:
+        """`for T in H(args): BODY`  ->  H's body with every `yield v` replaced by `T = v` ; BODY.
+        A list comprehension over H(...) that is the whole value of an assignment / return is first
+        written as a loop."""
+        for blk in _stmt_lists(fn):
+            for i, s in enumerate(blk):
+                # comprehension -> loop
+                comp = None
+                if isinstance(s, (ast.Assign, ast.Return)) and isinstance(s.value, ast.ListComp) and len(s.value.generators) == 1:
+                    g = s.value.generators[0]
+                    if self._is_call_of(g.iter, h) and bool(g.is_async) == h.is_async:
+                        comp = s.value
+                if comp is not None:
+                    cf = NameFacts(fn)
+                    used = set(cf.stores) | set(cf.loads) | cf.special
+                    if isinstance(s, ast.Assign) and len(s.targets) == 1 and isinstance(s.targets[0], ast.Name):
+                        acc = s.targets[0].id
+                        tail: List[ast.stmt] = []
+                    else:
+                        k = 1
+                        while f"_collected{k if k > 1 else ''}" in used:
+                            k += 1
+                        acc = f"_collected{k if k > 1 else ''}"
+                        if not isinstance(s, ast.Return):
+                            continue
+                        tail = [_loc(ast.Return(value=ast.Name(id=acc, ctx=ast.Load())), s)]
+                    g = comp.generators[0]
+                    app: ast.stmt = _loc(ast.Expr(value=ast.Call(func=ast.Attribute(value=ast.Name(id=acc, ctx=ast.Load()), attr="append", ctx=ast.Load()),
+                                                                  args=[comp.elt], keywords=[])), s)
+                    for c in reversed(g.ifs):
+                        app = _loc(ast.If(test=c, body=[app], orelse=[]), s)
+                    loop_cls = ast.AsyncFor if g.is_async else ast.For
+                    tgt = copy.deepcopy(g.target)
+                    for n in ast.walk(tgt):
+                        if hasattr(n, "ctx"):
+                            n.ctx = ast.Store()
+                    loop = _loc(loop_cls(target=tgt, iter=g.iter, body=[app], orelse=[], type_comment=None), s)
+                    init = _loc(ast.Assign(targets=[ast.Name(id=acc, ctx=ast.Store())], value=ast.List(elts=[], ctx=ast.Load())), s)
+                    blk[i:i + 1] = [init, loop] + tail
+                    return True
+                if not isinstance(s, (ast.For, ast.AsyncFor)) or not self._is_call_of(s.iter, h) or s.orelse:
+                    continue
+                if isinstance(s, ast.AsyncFor) != h.is_async:
+                    continue
+                binding = _bind(h, s.iter)  # type: ignore[arg-type]
+                if binding is None:
+                    continue
+                # a `break` of this loop cannot be expressed once the body sits in the helper's own loops
+                def own_break(stmts: List[ast.stmt]) -> bool:
+                    for st in stmts:
+                        if isinstance(st, ast.Break):
+                            return True
+                        if isinstance(st, (ast.For, ast.AsyncFor, ast.While)):
+                            if own_break(st.orelse):
+                                return True
+                            continue
+                        for f in ("body", "orelse", "finalbody"):
+                            if own_break(getattr(st, f, []) or []):
+                                return True
+                        if isinstance(st, ast.Try) and any(own_break(hd.body) for hd in st.handlers):
+                            return True
+                    return False
+                if own_break(s.body):
+                    continue
+                names, subst, pre = self._fresh(fn, h, binding)
+                body = [_Rename(names, subst).visit(copy.deepcopy(x)) for x in h.body]
+                target, loop_body = s.target, s.body
+
+                class _Y(ast.NodeTransformer):
+                    def visit_Expr(self, node: ast.Expr) -> object:
+                        if isinstance(node.value, ast.Yield):
+                            bind = _loc(ast.Assign(targets=[copy.deepcopy(target)], value=node.value.value), node)
+                            return [bind] + [copy.deepcopy(b) for b in loop_body]
+                        return node
+
+                    def visit_FunctionDef(self, node: ast.FunctionDef) -> ast.AST:
+                        return node
+
+                    visit_AsyncFunctionDef = visit_FunctionDef  # type: ignore[assignment]
+                    visit_Lambda = visit_FunctionDef  # type: ignore[assignment]
+
+                new_body: List[ast.stmt] = []
+                for b in body:
+                    r = _Y().visit(b)
+                    new_body.extend(r if isinstance(r, list) else [r])
+                blk[i:i + 1] = pre + new_body
+                return True
+        return None
+
     def _inline_one(self, fn: ast.AST, h: Helper) -> Optional[bool]:
+        if h.is_gen:
+            return self._inline_generator(fn, h)
         # 1. expression form anywhere
         ef = _expr_form(h.body)
         for blk in _stmt_lists(fn):
